@@ -98,6 +98,15 @@ pub fn lift_type(reg: &LiftRegistry, ty: &syn::Type, self_ty: Option<&str>) -> R
             let v: R<Vec<String>> = t.elems.iter().map(|e| lift_type(reg, e, self_ty)).collect();
             Ok(format!("({})", v?.join(", ")))
         }
+        syn::Type::Slice(sl) => {
+            let e = lift_type(reg, &sl.elem, self_ty)?;
+            match e.as_str() {
+                "int" => Ok("Seq<int>".into()),
+                "real" => Ok("RArr".into()),
+                "Rec" => Ok("OArr".into()),
+                _ => unsupported("slice element type", ty),
+            }
+        }
         syn::Type::Array(a) => {
             let e = lift_type(reg, &a.elem, self_ty)?;
             if e == "real" {
@@ -124,16 +133,26 @@ pub fn lift_type(reg: &LiftRegistry, ty: &syn::Type, self_ty: Option<&str>) -> R
                 "Self" => {
                     return match self_ty {
                         Some(s) => Ok(reg.types.get(s).cloned().unwrap_or(format!("L_{s}"))),
-                        None => Err("Self outside impl".into()),
+                        None => reg.types.get("Self").cloned().ok_or("Self outside impl".to_string()),
                     }
                 }
                 "Array1" | "Vec" => {
-                    if args.len() == 1 && lift_type(reg, args[0], self_ty)? == "real" {
-                        return Ok("RArr".into());
+                    if args.len() == 1 {
+                        match lift_type(reg, args[0], self_ty)?.as_str() {
+                            "real" => return Ok("RArr".into()),
+                            "Rec" => return Ok("OArr".into()),
+                            "int" => return Ok("Seq<int>".into()),
+                            _ => {}
+                        }
                     }
                     return unsupported("array element type", ty);
                 }
-                "Array2" => return Ok("RArr2".into()),
+                "Array2" => {
+                    if args.len() == 1 && lift_type(reg, args[0], self_ty)? == "Rec" {
+                        return Ok("OArr2".into());
+                    }
+                    return Ok("RArr2".into());
+                }
                 "Option" if args.len() == 1 => return Ok(format!("Option<{}>", lift_type(reg, args[0], self_ty)?)),
                 "Arc" | "Box" if args.len() == 1 => return lift_type(reg, args[0], self_ty),
                 "EosResult" if args.len() == 1 => return Ok(format!("Result<{}, LErr>", lift_type(reg, args[0], self_ty)?)),
@@ -210,6 +229,8 @@ impl<'a> Lifter<'a> {
     fn elem(&self, a: &Val, idx: &str) -> R<Val> {
         match a.ty.as_str() {
             "RArr" => Ok(v(format!("({}.at)({idx})", a.text), "real")),
+            "OArr" => Ok(v(format!("({}.at)({idx})", a.text), "Rec")),
+            "Seq<int>" => Ok(v(format!("{}[{idx}]", a.text), "int")),
             _ => Err(format!("construct outside rule list (lift): indexing a value of type {}", a.ty)),
         }
     }
@@ -437,6 +458,14 @@ impl<'a> Lifter<'a> {
                         let i = self.expr(&arr.elems[0])?;
                         let j = self.expr(&arr.elems[1])?;
                         return Ok(v(format!("({}.at)({}, {})", a.text, i.text, j.text), "real"));
+                    }
+                }
+                if let Expr::Tuple(tp) = &*ix.index {
+                    if tp.elems.len() == 2 && (a.ty == "RArr2" || a.ty == "OArr2") {
+                        let i = self.expr(&tp.elems[0])?;
+                        let j = self.expr(&tp.elems[1])?;
+                        let et = if a.ty == "RArr2" { "real" } else { "Rec" };
+                        return Ok(v(format!("({}.at)({}, {})", a.text, i.text, j.text), et));
                     }
                 }
                 let i = self.expr(&ix.index)?;
@@ -1103,11 +1132,21 @@ impl<'a> Lifter<'a> {
                 return Ok(v(format!("RArr {{ len: {}, at: |i__: int| {} }}", n.text, x.text), "RArr"));
             }
             "Array1::from_shape_fn" | "Array::from_shape_fn" | "Quantity::from_shape_fn" | "Array2::from_shape_fn" => {
-                let n = self.expr(&c.args[0])?;
+                let n = if let syn::Expr::Array(sh) = &c.args[0] {
+                    if sh.elems.len() != 2 {
+                        return unsupported("from_shape_fn shape", whole);
+                    }
+                    let a = self.expr(&sh.elems[0])?;
+                    let b = self.expr(&sh.elems[1])?;
+                    v(format!("({}, {})", a.text, b.text), "(int, int)")
+                } else {
+                    self.expr(&c.args[0])?
+                };
                 if n.ty == "int" {
                     let (pn, body) = self.closure1(&c.args[1], "int")?;
                     self.note("L8", whole.span(), "from_shape_fn lifted to an index function");
-                    return Ok(v(format!("RArr {{ len: {}, at: |{pn}: int| {} }}", n.text, body.text), "RArr"));
+                    let at = if body.ty == "Rec" { "OArr" } else { "RArr" };
+                    return Ok(v(format!("{at} {{ len: {}, at: |{pn}: int| {} }}", n.text, body.text), at));
                 }
                 if n.ty == "(int, int)" {
                     let syn::Expr::Closure(cl) = &c.args[1] else { return unsupported("from_shape_fn closure", whole) };
@@ -1121,9 +1160,10 @@ impl<'a> Lifter<'a> {
                     self.env.pop();
                     let body = body?;
                     self.note("L8", whole.span(), "from_shape_fn (2-D) lifted to an index function");
+                    let at = if body.ty == "Rec" { "OArr2" } else { "RArr2" };
                     return Ok(v(
-                        format!("RArr2 {{ n: {0}.0, m: {0}.1, at: |{1}: int, {2}: int| {3} }}", n.text, names[0], names[1], body.text),
-                        "RArr2",
+                        format!("{at} {{ n: {0}.0, m: {0}.1, at: |{1}: int, {2}: int| {3} }}", n.text, names[0], names[1], body.text),
+                        at,
                     ));
                 }
                 return unsupported("from_shape_fn shape", whole);
@@ -1232,9 +1272,10 @@ impl<'a> Lifter<'a> {
                             if list.ty == "Seq<int>" {
                                 let (pn, body) = self.closure1(&mm.args[0], "int")?;
                                 self.note("L8", whole.span(), "iter-map-collect over an index list lifted to an index function");
+                                let at = if body.ty == "Rec" { "OArr" } else { "RArr" };
                                 return Ok(v(
-                                    format!("RArr {{ len: {0}.len() as int, at: |k__: int| {{ let {pn} = {0}[k__]; {1} }} }}", list.text, body.text),
-                                    "RArr",
+                                    format!("{at} {{ len: {0}.len() as int, at: |k__: int| {{ let {pn} = {0}[k__]; {1} }} }}", list.text, body.text),
+                                    at,
                                 ));
                             }
                         }
@@ -1246,6 +1287,9 @@ impl<'a> Lifter<'a> {
         let recv = self.expr(&m.receiver)?;
         let mut args = Vec::new();
         for a in &m.args {
+            if name == "expect" {
+                continue; // the panic message is not a value of the lifted function
+            }
             if matches!(a, syn::Expr::Closure(_)) {
                 args.push(v("<closure>", "closure"));
             } else {
@@ -1311,6 +1355,15 @@ impl<'a> Lifter<'a> {
                 let (pn, body) = self.closure1(&m.args[0], "real")?;
                 return Ok(v(format!("RArr {{ len: {0}.len, at: |i__: int| {{ let {pn} = ({0}.at)(i__); {1} }} }}", recv.text, body.text), "RArr"));
             }
+            ("map", t) if t.starts_with("Option<") && m.args.len() == 1 => {
+                let inner = t[7..t.len() - 1].to_string();
+                let (pn, body) = self.closure1(&m.args[0], &inner)?;
+                return Ok(v(
+                    format!("(match {} {{ Some({pn}) => Some({}), None => None }})", recv.text, body.text),
+                    &format!("Option<{}>", body.ty),
+                ));
+            }
+            ("len", "OArr") => return Ok(v(format!("{}.len", recv.text), "int")),
             ("unwrap_or", t) if t.starts_with("Option<") => {
                 return Ok(v(format!("(match {} {{ Some(x__) => x__, None => {} }})", recv.text, args[0].text), &args[0].ty));
             }
@@ -1512,8 +1565,10 @@ pub fn lift_fn(ctx: &mut Ctx, blk: &Block) -> Result<(String, Value), String> {
     for a in &f.sig.inputs {
         match a {
             syn::FnArg::Receiver(_) => {
-                let st = self_ty.clone().ok_or("receiver outside impl")?;
-                let t = reg.types.get(&st).cloned().unwrap_or(format!("L_{st}"));
+                let t = match &self_ty {
+                    Some(st) => reg.types.get(st).cloned().unwrap_or(format!("L_{st}")),
+                    None => reg.types.get("Self").cloned().ok_or("receiver outside impl (declare //@ltype Self => ...)")?,
+                };
                 params.push(("self_".into(), t));
             }
             syn::FnArg::Typed(t) => {
